@@ -1198,6 +1198,8 @@ impl<'a> GeneratorState<'a> {
             _ => self.asm(if load { LDA } else { STA }, expr, pos, false)?,
         };
         self.protected = false;
+        // LDA, TXA, TYA, TAX and TAY set N and Z from something else than the last expression
+        self.flags = FlagsState::Unknown;
         Ok(())
     }
 
